@@ -62,14 +62,19 @@ def try_accept(ctx, sel, point):
   except Exception as e:  # pylint: disable=broad-except
     ctx.violation('refusal_is_not_ValueError', {'stage': 'construction', 'exc': type(e).__name__}, {'point': point})
     return 'refused_construction'
+  want = recipes.declared_supported(alg, sel, cfg)
   try:
     qt = aeq.Quantizer(dummy())
     qt.update_quantization_recipe('.*', OP(sel), cfg, alg)
   except ValueError:
+    if want:
+      ctx.violation('acceptance_differs_from_declared_policy', {'selector': sel, 'declared': True, 'accepted': False}, {'config': str(cfg)[:300], 'algorithm': alg})
     return 'refused_update'
   except Exception as e:  # pylint: disable=broad-except
     ctx.violation('refusal_is_not_ValueError', {'stage': 'update', 'exc': type(e).__name__, 'selector': sel}, {'point': point, 'msg': str(e)[:200]})
     return 'refused_update'
+  if not want:
+    ctx.violation('acceptance_differs_from_declared_policy', {'selector': sel, 'declared': False, 'accepted': True}, {'config': str(cfg)[:300], 'algorithm': alg})
   return ('accepted', cfg, alg)
 
 
